@@ -39,7 +39,7 @@ func c11paths() []c11path {
 		}
 	}
 	rec(nil)
-	causes1 := []string{"none", "disconnect", "drop", "silence", "second-connect", "displaced-same-node"}
+	causes1 := []string{"none", "disconnect", "drop", "silence", "second-connect", "displaced-same-node", "subscribe-and-drop"}
 	causes2 := append(append([]string{}, causes1...), "displaced-other-node", "leave")
 	// keep-alive values at the edges of the 16-bit field: only short absolute idles (1 s, 3.5 s), pings and subscriptions
 	for _, k := range []int32{32767, 32768, 32769, 65535} {
@@ -232,6 +232,11 @@ func TestC11Lifecycle(t *testing.T) {
 				case "disconnect":
 					c.Disconnect()
 				case "drop":
+					c.Drop()
+					expectClose = false
+				case "subscribe-and-drop":
+					// the connection is lost while the SUBSCRIBE is being processed / before its SUBACK is read
+					c.Subscribe(99, 0, "late/#", "a")
 					c.Drop()
 					expectClose = false
 				case "silence":
